@@ -243,7 +243,19 @@ def instr_shapes(tier, seed, props, only=None):
             continue
         wide = any(w in sid for w in ('arg48', 'arg64', 'arg33'))
         S.append(InstrShape(sid, config=cfg, stmt=stmt, props=list(props), expect=expect, width=96 if wide else 48))
+    # the same statements in contexts that must not matter: inside a selected conditional branch, in an included file,
+    # after a muted region, label on its own line, mnemonic in upper case (each template gets one context in the quick
+    # tier, all of them in the thorough tier)
+    for n, sh in enumerate(list(S)):
+        for k, c in enumerate(CONTEXTS):
+            if tier == 'quick' and (n % (2 * len(CONTEXTS))) != k:
+                continue
+            pr = {kk: vv for kk, vv in sh.params.items() if kk != 'files'}
+            S.append(InstrShape(f'{c}:{sh.sid}', context=c, **pr))
     return S
+
+
+CONTEXTS = ('if1', 'else-branch', 'after-muted-region', 'included', 'label-on-own-line', 'uppercase')
 
 
 # ---------------------------------------------------------------------------------------------------------------------
